@@ -164,7 +164,7 @@ class World:
         self.model = Net()
         self.trainer = Trainer(self.model, synapgrad)
         self.loss = LLoss(nn.CrossEntropyLoss() if mode == Evaluator.MULTI_CLASS else nn.MSELoss())
-        self.trainer.compile(self.loss, LSGD(self.model.parameters(), lr=0.05, momentum=0.5), (LEvaluator(mode=mode, epoch_callback=lambda yt, yp: [("err", np.float64(np.mean(yt != yp)))], step_callback=lambda yt, yp: [("step_err", np.float64(np.mean(yt != yp)))])
+        self.trainer.compile(self.loss, LSGD(self.model.parameters(), lr=0.05, momentum=0.5), (LEvaluator(mode=mode, epoch_callback=lambda yt, yp: [("err", np.float64(np.mean(yt != yp))), ("validity", np.float64(np.mean(yt != yp)))], step_callback=lambda yt, yp: [("step_err", np.float64(np.mean(yt != yp)))])
                                                                                                   if case.get("ev_cb") else LEvaluator(mode=mode)) if mode else None)
         self.train_loader = loader("train", case["n_train"], case["rem"] if bs > 1 else 0)
         self.val_loader = None if case["val"] is None else loader("val", case["val"], 0, (case["val"] - 1) if case["val_raises"] else None)
@@ -269,7 +269,7 @@ def run_fit(case, seed=0):
     if val_open is not None:
         ck(end_state == val_open, "Trainer.fit.validation_changes_no_state", "parameters / running statistics differ after the last validation")
     # ---- the history
-    want = ["loss"] + (["accuracy"] if c["ev"] else []) + (["err"] if c["ev"] and c.get("ev_cb") else [])      # step metrics are progress-bar only
+    want = ["loss"] + (["accuracy"] if c["ev"] else []) + (["err", "validity"] if c["ev"] and c.get("ev_cb") else [])      # step metrics are progress-bar only; "validity": a user metric whose name happens to start with the prefix
     if c["val"] is not None:
         want += ["val_" + k for k in want]
     ck(isinstance(hist, dict), "Trainer.fit.history_one_entry_per_epoch", "fit returned %r" % type(hist).__name__)
@@ -290,8 +290,8 @@ def run_fit(case, seed=0):
         frac = float(np.mean(np.concatenate(yt) == np.concatenate(yp)))
         got = float(hist[k][ep]) if len(hist.get(k, [])) > ep else float("nan")
         ck(abs(got - frac) <= 1e-9, "Trainer.fit.epoch_accuracy_is_fraction_correct", "history[%r][%d] = %r, fraction of correct predictions = %r" % (k, ep, got, frac), which=k)
-        if c.get("ev_cb"):
-            k = "err" if ph == "train" else "val_err"
+        for base in (("err", "validity") if c.get("ev_cb") else ()):
+            k = base if ph == "train" else "val_" + base
             got = float(hist[k][ep]) if len(hist.get(k, [])) > ep else float("nan")
             ck(abs(got - (1.0 - frac)) <= 1e-9, "Trainer.fit.history_every_metric_per_epoch", "history[%r][%d] = %r, the callback metric of that epoch is %r" % (k, ep, got, 1.0 - frac), which=k)
     return n, fails, _replay(case, log, hist)
